@@ -143,7 +143,9 @@ def run_shard(sh):
             grab(r)
 
         ex = S.bfs_shard(cfg, [StopMonitor], S.ALPHABET_SMALL, sh['d0'], sh['depth'], sh['part'], sh['nparts'],
-                         multi=True, on_state=on_state, time_budget=sh['budget'], on_run=note, start=sh.get('start'))
+                         multi=True, on_state=on_state, time_budget=sh['budget'], on_run=note, start=sh.get('start'),
+                         # prefix-seeded searches also try the operator's requests inside an unfinished instant (15.3)
+                         rest=('STOP~', 'TICK~') if sh.get('start') else ())
         viol.update({k: v for k, v in ex.viol.items() if k not in viol})
         res['evaluations'] = ex.execs
         res['distinct'] = ['%s|%d' % (sorted(sh['time_opts'].items()), hash(k)) for k in ex.seen]
